@@ -7,6 +7,7 @@ import Driver.VmVerify
 import Driver.SimStep
 import Driver.SimGood
 import Driver.Prep
+import Driver.EvalK
 /-! Driver commands of the Vm area. -/
 namespace Marwood.Driver.Vm
 open Marwood Marwood.Vm
@@ -38,6 +39,7 @@ def handle (cmd : String) (args : List String) : Option String :=
   | "simstep", args => SimStep.handle args
   | "simgood", args => SimGood.handle args
   | "prepcheck", args => Prep.handle args
+  | "spec-evalk", args => EvalK.handle args
   | "errstate", [cap] => do
       let cap ← cap.toNat?
       -- an arbitrary mid-evaluation state with that stack capacity, through the error epilogue
